@@ -33,7 +33,7 @@ PROPS = {
         'proof_files': ['Proofs/Storage.v'],
     },
     'C02': {
-        'budget': _merge(_p('handles', 220, 4000), _p('mixed', 60, 1000)),
+        'budget': _merge(_p('handles', 220, 4000), _p('dump', 80, 1000), _p('mixed', 60, 1000)),
         'projection': [(r'res:(ALIVE|STATS|NEW|NEWWITH|BNEW|BBATCH|BBATCHQ|DUMP|LOAD)', None),
                        (r'panic_unexpected:(NEW|NEWWITH|BNEW|BBATCH|BBATCHQ|RM|BRM|ALIVE|RESET|LOAD)', None)],
         'own_ops': {'RM', 'BRM', 'BBATCH', 'NEW', 'RESET'},
@@ -50,12 +50,12 @@ PROPS = {
         'proof_files': ['Proofs/Cursor.v'],
     },
     'C05': {
-        'budget': _merge(_p('rel', 220, 4000), _p('mixed', 60, 1000)),
+        'budget': _merge(_p('rel', 220, 4000), _p('cache', 80, 1000), _p('mixed', 60, 1000)),
         'projection': [(r'view_target', None), (r'res:(RELGET|QREL)', None),
                        (r'panic_missing:(RELSET|RELXCHG|BNEW|BBATCH|BBATCHQ|BADD|BSETREL|BXCHG|NEW|NEWWITH|XCHG|ASSIGN)', None),
                        (r'panic_unexpected:(RELSET|RELXCHG|RELGET)', None),
                        (r'res:QSCAN', 'op_relfilter')],
-        'chk': [r'Relation'],
+        'chk': [r'Relation', r'cached filter \d+ \(R '],
         'own_ops': {'RELSET', 'RELXCHG', 'BSETREL', 'BNEW'},
         'rule': "seeded histories (profile rel): targets alive/zero/self/dead/recycled through every target-taking entry point; non-trivial = a relation operation after the first 10 ops",
     },
@@ -129,7 +129,7 @@ PROPS = {
         'budget': _merge(_p('dump', 220, 4000)),
         'projection': [(r'res:(DUMP|LOAD)', None), (r'panic_(missing|unexpected):(DUMP|LOAD)', None),
                        (r'res:(ALIVE|NEW|NEWWITH|BNEW|BBATCH|STATS)', 'load')],
-        'chk': [r'dump|load'],
+        'chk': [r'dump|load|JSON'],
         'own_ops': {'DUMP', 'LOAD'},
         'rule': "seeded histories (profile dump): dump, load into a fresh or reset twin world, shared continuation",
     },
